@@ -949,17 +949,30 @@ func (c *Ctx) ruleGatedReset(rule string) {
 	for _, f := range p.FuncsIn(PkgGated) {
 		tb := p.NewTerms(nil)
 		eachInstr(f, func(in ssa.Instruction) {
-			st, ok := in.(*ssa.Store)
-			if !ok {
-				return
-			}
-			fa, ok := st.Addr.(*ssa.FieldAddr)
-			if !ok || typeShort(fa.X.Type()) != "gated.Filter" || isFresh(fa.X) {
-				return
-			}
-			name := fa.X.Type().Underlying().(*types.Pointer).Elem().Underlying().(*types.Struct).Field(fa.Field).Name()
-			if name != "gated" && name != "orderedGated" {
-				return
+			var name, valStr string
+			valNil := false
+			if call, isCall := in.(*ssa.Call); isCall {
+				// emptying a container in place — clear(w.gated), w.orderedGated.Init() — drops every group just
+				// as replacing it does
+				nm, ok := gatedResetInPlace(call, tb)
+				if !ok {
+					return
+				}
+				name, valStr = nm, "emptied in place"
+			} else {
+				st, ok := in.(*ssa.Store)
+				if !ok {
+					return
+				}
+				fa, ok := st.Addr.(*ssa.FieldAddr)
+				if !ok || typeShort(fa.X.Type()) != "gated.Filter" || isFresh(fa.X) {
+					return
+				}
+				name = fa.X.Type().Underlying().(*types.Pointer).Elem().Underlying().(*types.Struct).Field(fa.Field).Name()
+				if name != "gated" && name != "orderedGated" {
+					return
+				}
+				valNil, valStr = isNilConst(st.Val), tb.Of(st.Val).String()
 			}
 			n++
 			construct := p.ShortFn(f) + ":assign:" + name
@@ -1027,16 +1040,15 @@ func (c *Ctx) ruleGatedReset(rule string) {
 				}
 				noBroker = sites > 0 && all
 			}
-			vt := tb.Of(st.Val)
 			switch {
-			case lazy && !isNilConst(st.Val):
+			case lazy && !valNil:
 				r.Ok(rule, construct+":lazy-init", p.InstrPos(in), "a nil container is initialised with an empty one")
-			case noBroker && f.Parent() == nil && isNilConst(st.Val):
+			case noBroker && f.Parent() == nil && valNil:
 				r.Bad(rule, construct+":nil", p.InstrPos(in), "the container "+name+" is set to nil: Process initialises the containers, releases the lock to expire old groups and relies on them afterwards — a concurrent FlushAll without a Broker makes it panic on the nil list / nil map. Dropping everything must leave empty containers")
 			case noBroker && f.Parent() == nil:
 				r.Ok(rule, construct+":no-broker", p.InstrPos(in), "everything is dropped only where no Broker is configured")
 			default:
-				r.Bad(rule, construct, p.InstrPos(in), "the container "+name+" is replaced as a whole ("+vt.String()+") at a point not dominated by `w.Broker == nil` (nor a lazy initialisation): groups that were accepted and never failed are discarded")
+				r.Bad(rule, construct, p.InstrPos(in), "the container "+name+" is replaced as a whole ("+valStr+") at a point not dominated by `w.Broker == nil` (nor a lazy initialisation): groups that were accepted and never failed are discarded")
 			}
 		})
 	}
@@ -5072,7 +5084,7 @@ func (c *Ctx) ruleOverrideVerbatim(rule string) {
 					if isNilConst(v) {
 						continue
 					}
-					if !(t.Op == "Call" && strings.HasSuffix(t.Name, "maps.Clone") && len(t.Args) == 1 && strings.Contains(t.Args[0].String(), "Field[FilterOperationOverrides]")) {
+					if !(t.Op == "Call" && (strings.HasSuffix(t.Name, "maps.Clone") || strings.HasPrefix(t.Name, "maps.Clone[")) && len(t.Args) == 1 && strings.Contains(t.Args[0].String(), "Field[FilterOperationOverrides]")) {
 						okAll = false
 					}
 				}
@@ -6263,11 +6275,17 @@ func (c *Ctx) rulePointerKindGuard(rule string) {
 func (c *Ctx) ruleTaggableThenGeneric(rule string) {
 	p, r := c.P, c.R
 	n := 0
-	for _, name := range []string{"Process", "filterField"} {
-		fn := c.Fn(rule, PkgEncrypt, "Filter", name)
-		if fn == nil {
-			continue
+	// every method of the filter that applies tags (Process and filterField today; a loop moved into a method of its
+	// own is found as well). The sweep (a method of trackedMaps) tracks BEFORE it applies the tags and is not part of this.
+	var fns []*ssa.Function
+	for _, f := range p.FuncsIn(PkgEncrypt) {
+		if f.Signature.Recv() != nil && typeShort(f.Signature.Recv().Type()) == "encrypt.Filter" && f.Name() != "filterTaggable" && f.Synthetic == "" {
+			fns = append(fns, f)
 		}
+	}
+	sort.Slice(fns, func(i, j int) bool { return fns[i].Name() < fns[j].Name() })
+	for _, fn := range fns {
+		name := fn.Name()
 		calls := callsTo(fn, func(nm string, cc *ssa.CallCommon) bool { return nm == "(*filters/encrypt.Filter).filterTaggable" })
 		for k, ci := range calls {
 			n++
@@ -6537,4 +6555,226 @@ func (c *Ctx) ruleNoLockCopy(rule string) {
 		return
 	}
 	r.Ok(rule, "nocopy", "", fmt.Sprintf("%d functions, %d lock-holding types: no by-value receiver, parameter, result or dereference copy of a type that contains a synchronisation primitive", nFns, nTypes))
+}
+
+// gatedResetInPlace: clear(w.gated) / w.orderedGated.Init() — the in-place forms of "drop every group".
+func gatedResetInPlace(call *ssa.Call, tb *Terms) (string, bool) {
+	if b, ok := call.Call.Value.(*ssa.Builtin); ok && b.Name() == "clear" && len(call.Call.Args) == 1 {
+		if t := tb.Of(call.Call.Args[0]); t.Is("Field", "gated") {
+			return "gated", true
+		}
+		return "", false
+	}
+	if sc := call.Call.StaticCallee(); sc != nil && sc.String() == "(*container/list.List).Init" && len(call.Call.Args) == 1 {
+		if t := tb.Of(call.Call.Args[0]); t.Is("Field", "orderedGated") {
+			return "orderedGated", true
+		}
+	}
+	return "", false
+}
+
+// ruleListProgress (C12.progress <fn>:list-progress): every loop of the gated filter
+// over its container/list (they run under Filter.l, inside Process / Close, inside a
+// Broker call) moves on in every iteration: the element carried round the back edge is
+// the successor of the current one (e.Next(), read before the body may remove e) — or,
+// when the loop re-reads the list's Front(), every way round passes a call that removes
+// the element at hand (openGate / List.Remove). A pop-front loop whose body can leave
+// the front in place (the unexpired-group arm) examines the same element for ever.
+func (c *Ctx) ruleListProgress(rule string) {
+	p, r := c.P, c.R
+	const next = "(*container/list.Element).Next"
+	const front = "(*container/list.List).Front"
+	const remove = "(*container/list.List).Remove"
+	n := 0
+	for _, fn := range p.FuncsIn(PkgGated) {
+		for _, b := range fn.Blocks {
+			for _, in := range b.Instrs {
+				phi, ok := in.(*ssa.Phi)
+				if !ok || typeShort(phi.Type()) != "list.Element" {
+					continue
+				}
+				h := phi.Block()
+				if !loopHeaders(fn)[h] {
+					continue
+				}
+				loop := naturalLoop(h)
+				n++
+				construct := p.ShortFn(fn) + ":list-progress"
+				okAll, why := true, ""
+				for i, e := range phi.Edges {
+					pred := h.Preds[i]
+					if !loop[pred] {
+						continue // entry edge
+					}
+					// the value carried round: a successor read from the loop's own element ...
+					var derivesNext func(v ssa.Value, d int) bool
+					derivesNext = func(v ssa.Value, d int) bool {
+						if d > 4 {
+							return false
+						}
+						switch x := v.(type) {
+						case *ssa.Call:
+							if sc := x.Call.StaticCallee(); sc != nil && sc.String() == next {
+								return x.Call.Args[0] == ssa.Value(phi)
+							}
+						case *ssa.Phi:
+							if x == phi {
+								return false
+							}
+							for _, pe := range x.Edges {
+								if !derivesNext(pe, d+1) {
+									return false
+								}
+							}
+							return len(x.Edges) > 0
+						}
+						return false
+					}
+					if derivesNext(e, 0) {
+						continue
+					}
+					// ... or the list's front, re-read after the element at hand was removed on every way round
+					if call, isCall := e.(*ssa.Call); isCall && call.Call.StaticCallee() != nil && call.Call.StaticCallee().String() == front {
+						removing := map[*ssa.BasicBlock]bool{}
+						for lb := range loop {
+							for _, li := range lb.Instrs {
+								ci, ok := li.(*ssa.Call) // (a deferred removal runs when the function returns, not in this iteration)
+								if !ok || ci.Call.StaticCallee() == nil {
+									continue
+								}
+								sc := ci.Call.StaticCallee()
+								removes := sc.String() == remove
+								if !removes && (p.InRepo(sc) || p.InCtl(sc)) {
+									always, onSuccess := c.mustRemoveFront(sc)
+									removes = always
+									if !always && onSuccess {
+										// a helper that removes unless it fails: its failure has to leave the loop
+										cond, tsucc, _ := condOf(lb)
+										if bo, isB := cond.(*ssa.BinOp); isB && bo.Op == token.NEQ && (bo.X == ssa.Value(ci) || bo.Y == ssa.Value(ci)) && (isNilConst(bo.X) || isNilConst(bo.Y)) && !loop[tsucc] {
+											removes = true
+										}
+									}
+								}
+								if removes {
+									if dominatesInstr(li, call) || lb != call.Block() {
+										removing[lb] = true
+									}
+								}
+							}
+						}
+						// is the latch reachable from the header inside the loop without a removing block?
+						seen := map[*ssa.BasicBlock]bool{h: true}
+						work := []*ssa.BasicBlock{h}
+						bypass := removing[h] == false && h == pred
+						for len(work) > 0 && !bypass {
+							x := work[len(work)-1]
+							work = work[:len(work)-1]
+							for _, sx := range x.Succs {
+								if !loop[sx] || seen[sx] || removing[sx] || sx == h {
+									continue
+								}
+								if sx == pred {
+									bypass = true
+									break
+								}
+								seen[sx] = true
+								work = append(work, sx)
+							}
+						}
+						if removing[pred] {
+							bypass = false
+						}
+						if !bypass {
+							continue
+						}
+						okAll, why = false, "the loop re-reads the list's Front() at "+p.InstrPos(call)+", and an iteration can come round without having removed the element at hand"
+						continue
+					}
+					okAll, why = false, "the element carried round the loop is neither the current element's successor nor a re-read front"
+				}
+				r.Check(okAll, rule, construct, p.InstrPos(phi), "every iteration of the list loop moves on to the successor read from the current element (or re-reads the front after removing it)",
+					why+": the same group is examined again for ever, under the filter's lock, inside Filter.Process / Close — the Broker call that runs the filter never returns although every node returns")
+			}
+		}
+	}
+	if n < 2 {
+		r.Und(rule, "list-progress:instance-floor", "", fmt.Sprintf("only %d loops over a container/list found in package gated (2 confirmed by hand: processExpiredEvents, FlushAll)", n))
+	}
+}
+
+// mustRemoveFront: fn removes an element from a container/list on every path that returns (always), or at least on
+// every path that returns a nil error (onSuccess). A deferred Remove counts for the returns it dominates.
+func (c *Ctx) mustRemoveFront(fn *ssa.Function) (always, onSuccess bool) {
+	const remove = "(*container/list.List).Remove"
+	if fn.Blocks == nil || len(Returns(fn)) == 0 {
+		return false, false
+	}
+	always, onSuccess = true, true
+	idx, isErr := returnsError(fn.Signature)
+	for _, ret := range Returns(fn) {
+		found := false
+		eachInstr(fn, func(in ssa.Instruction) {
+			ci, ok := in.(ssa.CallInstruction)
+			if !ok {
+				return
+			}
+			if _, isGo := in.(*ssa.Go); isGo {
+				return
+			}
+			if sc := ci.Common().StaticCallee(); sc != nil && sc.String() == remove && dominatesInstr(in, ret) {
+				found = true
+			}
+		})
+		if found {
+			continue
+		}
+		always = false
+		rv := RetVals(ret)
+		if !(isErr && idx < len(rv) && !isNilConst(rv[idx])) {
+			onSuccess = false
+		}
+	}
+	return always, onSuccess
+}
+
+// ruleFormatFromTable (C13.format / C14.table Format:reads-table): what a sink writes is
+// "the bytes stored for its configured format" — Event.Format answers from the format
+// table itself, under Event.l: each of its returns is either the comma-ok look-up
+// e.Formatted[formatType] of the requested type, or (nil, false). A memo kept beside the
+// table (an atomic pointer refreshed by FormattedAs) answers with what was stored LAST
+// THROUGH FormattedAs: the exported table can be edited or the entry deleted without it.
+func (c *Ctx) ruleFormatFromTable(rule string) {
+	p, r := c.P, c.R
+	fn := c.Fn(rule, PkgRoot, "Event", "Format")
+	if fn == nil {
+		return
+	}
+	must := c.MustLocks()
+	tb := p.NewTerms(nil)
+	n := 0
+	for _, ret := range Returns(fn) {
+		rv := RetVals(ret)
+		if len(rv) != 2 {
+			continue
+		}
+		n++
+		if b, isC := constBool(rv[1]); isC && !b && isNilConst(rv[0]) {
+			r.Ok(rule, "Format:reads-table", p.InstrPos(ret), "(nil, false)")
+			continue
+		}
+		ok := false
+		e0, is0 := rv[0].(*ssa.Extract)
+		e1, is1 := rv[1].(*ssa.Extract)
+		if is0 && is1 && e0.Index == 0 && e1.Index == 1 && e0.Tuple == e1.Tuple {
+			if lk, isLk := e0.Tuple.(*ssa.Lookup); isLk && lk.CommaOk {
+				_, held := must.At(lk)["eventlogger.Event.l"]
+				ok = held && tb.Of(lk.X).String() == "Field[Formatted](Param(0:e))" && tb.Of(lk.Index).IsParam("1:formatType")
+			}
+		}
+		r.Check(ok, rule, "Format:reads-table", p.InstrPos(ret), "Format answers with the table's own entry for the requested type, looked up under Event.l",
+			"Format can answer with something other than the comma-ok look-up e.Formatted[formatType] made under Event.l ("+shortStr(tb.Of(rv[0]).String(), 80)+"): a value remembered beside the table goes stale when the exported table is edited or the entry deleted, and the sinks write bytes that are no longer the ones stored for their format — or report success where `no bytes for that format` is an error")
+	}
+	if n == 0 {
+		r.Und(rule, "Format:reads-table", p.Pos(fn.Pos()), "no return of (*Event).Format found")
+	}
 }
